@@ -80,6 +80,8 @@ def to_world_action(world, bind, la):
     k = conn.id if conn is not None else 0
     if a in ("Serve", "Deliver", "LateDeliver", "Drop", "CloseDone"):
         return [{"a": a, "k": k}]
+    if a == "SrvCloseBegin":
+        return [{"a": "SrvCloseBegin", "k": k}]
     if a == "Dup":
         return [{"a": "Dup", "k": k, "m": int(x) - 1}]
     if a == "SrvError":
